@@ -24,7 +24,7 @@ ASSUMPTIONS = [
 ]
 REQUIRED_CLASSES = ["nontrivial", "none", "meet", "slice", "defer", "equal_aspect", "doc_wider", "doc_taller",
                     "par_absent", "malformed_viewbox", "nonpositive", "tab_or_newline_separator",
-                    "multi_space", "case_variant", "negative_origin", "near_equal_aspect", "both_sizes_of_an_axis_nonpositive"]
+                    "multi_space", "case_variant", "negative_origin", "near_equal_aspect", "both_sizes_of_an_axis_nonpositive", "alignment_offset_exactly_zero"]
 QUICK_SHARDS = 4
 
 plot_utils = sut.load("plot_utils")
@@ -141,7 +141,22 @@ def cases(draw):
     vb_tokens = [draw(number()), draw(number()), draw(number(positive=True)), draw(number(positive=True))]
     dw_val = float(draw(number(positive=True)))
     dh_val = float(draw(number(positive=True)))
-    aspect = draw(st.sampled_from(["free", "free", "equal", "equal_scaled", "near_equal"]))
+    aspect = draw(st.sampled_from(["free", "free", "equal", "equal_scaled", "near_equal", "zero_offset"]))
+    if aspect == "zero_offset":
+        # coincidence: the viewBox origin on the slack axis equals the slack (or half of it), so that the mid or
+        # max alignment asks for an offset of exactly 0 - dyadic numbers keep it exact
+        w = float(draw(st.sampled_from([64, 100, 128, 50])))
+        h = float(draw(st.sampled_from([64, 100, 32, 200])))
+        k = draw(st.sampled_from([1.0, 2.0, 0.5]))
+        extra = float(draw(st.sampled_from([16, 32, 100, 50])))
+        if draw(st.booleans()):
+            dw_val, dh_val = w * k, (h + extra) * k            # slack on y (meet)
+            origin = [float(draw(st.sampled_from([0, 8, -8]))), draw(st.sampled_from([extra, extra / 2]))]
+        else:
+            dw_val, dh_val = (w + extra) * k, h * k            # slack on x
+            origin = [draw(st.sampled_from([extra, extra / 2])), float(draw(st.sampled_from([0, 8, -8])))]
+        vb_tokens = [repr(origin[0]), repr(origin[1]), repr(w), repr(h)]
+        tags.add("alignment_offset_exactly_zero")
     if aspect == "near_equal":
         # aspect ratios that differ by 1e-7 .. 1e-3 (unit-conversion rounding): meet/slice and alignment still apply
         k = draw(st.sampled_from([1.0, 2.0, 0.5, 3.7795275591, 96.0 / 25.4]))
